@@ -653,11 +653,16 @@ func GenProgram(t *rapid.T, prof *Profile, doc Doc) *Program {
 				}
 				continue
 			}
-			switch rapid.IntRange(0, 9).Draw(t, "out_tag") {
-			case 8:
+			if g.pct(20, "wait_disabled_output") {
 				// the disabled message of a step that may be enabled and still never start (its input never
 				// comes): absent as soon as the step is known to be enabled
 				fields = append(fields, F("wd_"+s.ID, Opt("wait-optional", StepRef(s.ID, "disabled", "output", "message"))))
+			}
+			k := rapid.IntRange(0, 6).Draw(t, "out_tag")
+			if k == 6 && prof.ErrorPathWaits && rapid.Bool().Draw(t, "error_path_wait") {
+				k = 7
+			}
+			switch k {
 			case 7:
 				// an error-path stage of a step that (in these profiles) never takes it: once the step has
 				// ended another way the field is absent
@@ -763,6 +768,10 @@ func GenProgram(t *rapid.T, prof *Profile, doc Doc) *Program {
 		z := &Step{ID: "zslow", Kind: "plugin", In: []Field{F("a", Lit(int64(4))), F("s", Lit("zz")), F("dur", Lit(d))}}
 		y := &Step{ID: "ystop", Kind: "plugin", In: []Field{F("a", Lit(int64(5))), F("dur", Lit(rapid.SampledFrom([]int64{0, 1, 5}).Draw(t, "ystop_dur")))}}
 		x := &Step{ID: "xvictim", Kind: "plugin", In: []Field{F("a", Lit(int64(6))), F("dur", Lit(int64(1)))}, StopIf: StepRef("ystop", "outputs", "")}
+		if rapid.IntRange(0, 2).Draw(t, "stop_when_started") == 0 {
+			// "stop the victim as soon as the other one is up": the value of the condition is an empty object
+			x.StopIf = StepRef("ystop", "starting", "started")
+		}
 		switch rapid.IntRange(0, 2).Draw(t, "victim_waits_by") {
 		case 0:
 			x.Enabled = Op("==", StepRef("zslow", "outputs", "success", "s"), Lit("<zz>"))
